@@ -119,6 +119,23 @@ def rule_cmp_admit(ctx):
         shapes[kind] = sig
         if (n_adm < 1 or n_rej < 2) and not r.violations:
             raise CheckFailure('CMP-admit: %s has %d admitted / %d rejected paths' % (nid, n_adm, n_rej))
+        # every branch of the scan is one of: weight reached, candidate less popular, no more victims / map lookup,
+        # (sync) retry limit -- any other condition lets the scan stop early or skip residents
+        for row in rows:
+            for t, v in _ordered_literals(row['path']):
+                if not isinstance(t, tuple):
+                    continue
+                okc = False
+                if t[0] == 'discr':
+                    okc = True      # Option / enum tests: next victim, map lookup, region
+                elif t[0] == 'cmp':
+                    a, b_ = t[2], t[3]
+                    okc = _cand_field(a, ('weight', 'policy_weight', 'freq')) or _cand_field(b_, ('weight', 'policy_weight', 'freq')) or \
+                        (a == ('c', 5) or b_ == ('c', 5))
+                if not okc:
+                    r.instance(function=nid, unrecognised_scan_condition=fmt(t)[:80])
+                    r.violate(nid, 'scan-extra-condition', fmt(t)[:60], 'the admission scan of %s branches on `%s`, which is none of: victims.weight < candidate.weight, candidate.freq < victims.freq, '
+                              'end of the deque / map lookup, retry limit: the aggregated prefix is no longer the shortest LRU prefix covering the candidate' % (nid, fmt(t)[:80]), where=ctx.where(nid))
         # loop-continue and early-exit conditions: first literals on paths
         firstW = set()
         firstF = set()
@@ -221,7 +238,14 @@ def rule_flow_admit_sums(ctx):
                     cand = e[2][0]
                     fr = [x for x in subterms(cand) if isinstance(x, tuple) and x and x[0] == 'call' and str(x[1]).endswith('FrequencySketch::frequency')]
                     ok = len(fr) == 1 and any((isinstance(y, tuple) and y and y[0] == 'param' and b.local_name(y[1]) in ('hash', 'kh')) for y in subterms(fr[0][2][1]))
-                    r.instance(function=caller, candidate=fmt(cand)[:90], candidate_freq_from_own_hash=ok)
+                    # the candidate's weight is the inserted entry's weight, unmodified
+                    cw = cand[3][0] if isinstance(cand, tuple) and cand[0] == 'aggr' and cand[3] else None
+                    cw0 = strip_cast(cw) if cw is not None else None
+                    wok = isinstance(cw0, tuple) and cw0[0] == 'param' and b.local_name(cw0[1]) in ('policy_weight', 'new_weight')
+                    if not wok:
+                        r.violate(caller, 'candidate-weight', 'weight', 'the candidate passed to the admission scan weighs `%s` instead of the inserted entry\'s own weight: the prefix it must beat is too short / long' % fmt(cw)[:80],
+                                  where=ctx.where(caller, e[3]), expected='EntrySizeAndFrequency::new(policy_weight)')
+                    r.instance(function=caller, candidate=fmt(cand)[:90], candidate_freq_from_own_hash=ok, candidate_weight_is_own=wok)
                     if not ok:
                         r.violate(caller, 'candidate-frequency', 'hash', 'the candidate passed to the admission scan does not carry frequency(own hash) exactly once: %s' % fmt(cand)[:100],
                                   where=ctx.where(caller, e[3]))
@@ -417,7 +441,7 @@ def rule_cmp_evict(ctx):
             r.violate(nid, 'no-eviction', 'evict_lru_entries', '%s does not run the over-capacity eviction before its own work on every path' % nid, where=ctx.where(nid))
     if R.maintenance:
         for m in sorted(R.maintenance):
-            paths = [p for p in _run(ctx, m, inline_depth=1, loop_visits=2, inline_pred=lambda n_, bb, d: True if n_.endswith('weights_to_evict') else False) if not p.diverged]
+            paths = [p for p in _run(ctx, m, inline_depth=1, loop_visits=2, inline_pred=lambda n_, bb, d: False) if not p.diverged]
             for p in paths:
                 guard = None
                 for t, v in _ordered_literals(p):
@@ -428,6 +452,20 @@ def rule_cmp_evict(ctx):
                     if isinstance(t, tuple) and t[0] == 'cmp' and t[1] == 'le' and t[2] == ('c', 1) and (has_call(t[3], ('weights_to_evict',)) or 'saturating_sub' in fmt(t[3])):
                         guard = v
                 called = any(e[0] == 'call' and str(e[1]).endswith('Inner::evict_lru_entries') for e in p.events)
+                # freshness: the excess handed to the eviction is computed after everything else that changes the run counters
+                ev_i = [i for i, e in enumerate(p.events) if e[0] == 'call' and str(e[1]).endswith('Inner::evict_lru_entries')]
+                if ev_i:
+                    ev = p.events[ev_i[0]]
+                    excess = [a for a in ev[2] if has_call(a, ('weights_to_evict',)) or 'saturating_sub' in fmt(a)]
+                    wte_i = [i for i, e in enumerate(p.events[:ev_i[0]]) if e[0] == 'call' and str(e[1]).endswith('weights_to_evict')]
+                    mut_i = [i for i, e in enumerate(p.events[:ev_i[0]]) if e[0] == 'call' and e[1] in prog.bodies and not str(e[1]).endswith('weights_to_evict') and
+                             any('EvictionCounters' in l['ty']['s'] and l['ty']['s'].startswith('&mut') for l in prog.bodies[e[1]].locals[1:prog.bodies[e[1]].argc + 1])]
+                    fresh = bool(wte_i) and (not mut_i or max(wte_i) > max(mut_i))
+                    r.instance(function=m, excess_computed_after_last_counter_change=fresh)
+                    if not fresh:
+                        r.violate(m, 'stale-excess', 'weights_to_evict', 'the maintenance run computes weights_to_evict BEFORE a step that still changes the run counters (expiry / write application) and '
+                                  'evicts for the stale excess: live LRU entries are evicted although the freed weight already covers it', where=ctx.where(m),
+                                  expected='compute weights_to_evict after evict_expired, immediately before evict_lru_entries')
                 if guard is None:
                     continue
                 r.instance(function=m, weights_to_evict_positive=guard, eviction_called=called)
@@ -512,6 +550,34 @@ def rule_must_recency(ctx):
                     r.violate(c, 'hit-without-recency', 'move_to_back', 'the read-op consumer applies %d hit(s) of admitted entries but refreshes recency %d time(s) on a path (conditions: %s)' % (
                         want, nmoves, [fmt(t)[:40] + '==' + str(v) for t, v in p.conds][:6]), where=ctx.where(c),
                         expected='Hit of an admitted entry => move_to_back_ao, unconditionally')
+        # every received read op is recorded: +1 sketch increment per Hit and per Miss, and one (guarded) advance of the
+        # entry's last-accessed time per Hit -- independent of whether the entry is admitted yet
+        EI = 'common::concurrent::entry_info::EntryInfo'
+        ts_writers = {x for x in prog.bodies if ('write', EI, 'last_accessed') in ctx.eff.direct.get(x, ())}
+        for c in sorted(cons):
+            is_read = any('ReadOp' in t.get('self_ty', {}).get('s', '') for _, t in prog.bodies[c].calls() if prog.call_targets(prog.bodies[c], t)[1] == 'crossbeam_channel::Receiver::try_recv')
+            if not is_read:
+                continue
+            for p in _run(ctx, c, inline_depth=1, loop_visits=2, inline_pred=lambda n_, bb, d: False):
+                if p.diverged:
+                    continue
+                ok_tags = [(t, v) for t, v in p.conds if isinstance(t, tuple) and t[0] == 'discr' and isinstance(t[1], tuple) and t[1][0] == 'payload' and t[1][2] == 'Ok' and has_call(t[1], ('Receiver::try_recv',))]
+                nops = len(ok_tags)
+                hit_idx = [v_['name'] for v_ in prog.adts['common::concurrent::ReadOp']['variants']].index('Hit')
+                nhits = sum(1 for t, v in ok_tags if v == hit_idx)
+                ninc = sum(1 for e in p.events if e[0] == 'call' and e[1] in R.sketch_increment)
+                nadv = sum(1 for e in p.events if e[0] == 'call' and e[1] in prog.bodies and (prog.reachable_from([e[1]]) & ts_writers) and e[1] not in R.move and 'move_to_back' not in e[1])
+                if not nops:
+                    continue
+                n += 1
+                r.instance(function=c, read_ops_received=nops, hits=nhits, sketch_increments=ninc, last_accessed_advances=nadv, ok=(ninc == nops and nadv == nhits))
+                if ninc != nops:
+                    r.violate(c, 'read-not-recorded', 'increment', 'the read-op consumer receives %d read op(s) on a path but increments the sketch %d time(s) (conditions: %s): a get is not recorded' % (
+                        nops, ninc, [fmt(t)[:40] + '==' + str(v) for t, v in p.conds][:6]), where=ctx.where(c), expected='freq.increment(hash) for every Hit and every Miss')
+                if nadv != nhits:
+                    r.violate(c, 'hit-time-not-applied', 'last_accessed', 'the read-op consumer receives %d Hit(s) on a path but advances last_accessed %d time(s) (conditions: %s): a successful get does not '
+                              'extend the idle deadline' % (nhits, nadv, [fmt(t)[:40] + '==' + str(v) for t, v in p.conds][:6]), where=ctx.where(c),
+                              expected='advance_last_accessed(timestamp) for every Hit, admitted or not')
         up = 'sync::base_cache::Inner::handle_upsert'
         if up in prog.bodies:
             for p in _run(ctx, up, inline_depth=3, loop_visits=2, inline_pred=lambda n_, bb, d: False if ('handle_remove' in n_) else None):
